@@ -330,8 +330,9 @@ PRIORITY = ["crash", "error", "nonfinite", "negative", "sum", "ground", "ratio",
 def run(chk):
     quick = chk.tier == "quick"
     ok, log = chk.prove(["extract/Extract_C09.vo", "extract/Extract_ED.vo", "theories/ThermalExamples.vo"],
-                        extra_props=["Properties_C09_source.v"])
-    chk.trusted += ["hand-written model coq/theories/Thermal.v: tied by correspondence, and for the Boltzmann factor, the occupancy summands (index order of the "
+                        extra_props=["Properties_C09_source.v", "Properties_C09_copy.v"])
+    chk.trusted += ["translator/gen_copy.py (~150 lines: regular expressions over the copy constructor's initialiser list and body) and the meaning coq/theories/CopyShapes.v gives to such a constructor (field-wise state, base classes Thermal = {beta}, ComputableObject = {Status}); a constructor outside the recognised shape falls back to the snapshot and copies are then judged by the runs only",
+                    "hand-written model coq/theories/Thermal.v: tied by correspondence, and for the Boltzmann factor, the occupancy summands (index order of the "
                     "eigenvector matrix) and the tests of EnsembleAverage::prepare by translator/gen_thermal.py (+ translator/cexpr.py): pattern recognition of "
                     "those C++ statements, whose output the theorems of Properties_C09_source.v are stated about; everything else of the model (ground energy, "
                     "normalisation, loop structure, getAverageEnergy, state lookup) by correspondence only",
@@ -411,7 +412,7 @@ def replay(chk, path):
     if not sc:
         run(chk)
         return chk.finish()
-    chk.prove(["extract/Extract_C09.vo", "extract/Extract_ED.vo"], extra_props=["Properties_C09_source.v"])
+    chk.prove(["extract/Extract_C09.vo", "extract/Extract_ED.vo"], extra_props=["Properties_C09_source.v", "Properties_C09_copy.v"])
     edlib.binaries("real")
     fam, beta, kind = rp["replay"]["family"], rp["replay"]["beta"], rp["replay"]["offset"]
     text = strip_beta(sc)
